@@ -137,3 +137,105 @@ def walks(lex: Module, qual: str = "LexerTokenStream.get_doxygen_after", extract
                     continue
                 stack.append((s, rec, kept, trail))
     return out, cfg, pop
+
+
+class LeadWalk(NamedTuple):
+    cls: str
+    popped: bool
+    outcome: str          # 'continue' (back to the scan loop) | 'leave'
+    recorded: bool        # comments.append(tok)
+    cleared: bool         # comments.clear() / comments = []
+    pushed_back: bool     # <buffer>.appendleft(tok)
+    trail: Tuple[int, ...]
+
+
+def leading_walks(lex: Module, qual: str = "LexerTokenStream.get_doxygen", consts: Optional[Dict[str, Any]] = None) -> List[LeadWalk]:
+    """The leading-comment scan, decided per class of token: one iteration of the loop that takes tokens off the front
+    of the buffer, started at the loop test with the class's representative as the buffer's first token (so a loop that
+    peeks at tokbuf[0] before popping and one that pops and pushes back are both followed)."""
+    fn = lex.func(qual)
+    cfg = CFG(fn)
+    pops = [n for n in cfg.nodes if n.kind == "stmt" and isinstance(n.stmt, ast.Assign) and norm(n.stmt.value).endswith(".popleft()")
+            and len(n.stmt.targets) == 1 and isinstance(n.stmt.targets[0], ast.Name)]
+    if len(pops) != 1:
+        raise AnalysisError(f"anchor vanished: the single `tok = tokbuf.popleft()` of {qual}")
+    pop = pops[0]
+    var = pop.stmt.targets[0].id
+    buf = norm(pop.stmt.value.func.value)  # type: ignore[attr-defined]
+    loop = None
+    for n in cfg.nodes:
+        if n.kind == "test" and isinstance(n.stmt, ast.While) and any(x is pop.stmt for x in ast.walk(n.stmt)):
+            if loop is None or any(x is n.stmt for x in ast.walk(loop.stmt)):
+                loop = n
+    if loop is None:
+        raise AnalysisError(f"anchor vanished: the scan loop of {qual}")
+    inside = {id(x) for st in loop.stmt.body for x in ast.walk(st)}
+    out: List[LeadWalk] = []
+    for cname, (ttype, value) in REPRESENTATIVES.items():
+        def sym(e: ast.AST) -> Optional[str]:
+            t = norm(e)
+            if t in (f"{var}.type", f"{buf}[0].type"):
+                return "type"
+            if t in (f"{var}.value", f"{buf}[0].value"):
+                return "value"
+            if t == buf:
+                return "buf"
+            if consts and t in consts:
+                return "const:" + t
+            return None
+        env0 = {"type": ttype, "value": value, "buf": True}
+        for k_, v_ in (consts or {}).items():
+            env0["const:" + k_] = v_
+        # state: node, popped, recorded, cleared, pushed, trail ; the buffer is non-empty until the token is popped
+        stack = [(loop, False, False, False, False, ())]
+        seen: Set[Tuple[int, bool, bool, bool, bool]] = set()
+        first = True
+        while stack:
+            n, popped, rec, clr, psh, trail = stack.pop()
+            if n is loop and not first:
+                out.append(LeadWalk(cname, popped, "continue", rec, clr, psh, trail))
+                continue
+            if n is not loop and (n is cfg.exit or n.stmt is None or id(n.stmt) not in inside):
+                out.append(LeadWalk(cname, popped, "leave", rec, clr, psh, trail))
+                continue
+            first = False
+            k = (n.id, popped, rec, clr, psh)
+            if k in seen:
+                continue
+            seen.add(k)
+            if n is pop:
+                popped = True
+            st = n.stmt
+            if n.kind == "stmt" and isinstance(st, ast.Expr) and isinstance(st.value, ast.Call):
+                c = st.value
+                f = norm(c.func)
+                if f == "comments.append" and len(c.args) == 1 and norm(c.args[0]) == var:
+                    rec = True
+                elif f == "comments.clear":
+                    clr = True
+                elif f.endswith(".appendleft") and len(c.args) == 1 and norm(c.args[0]) == var:
+                    psh = True
+            if n.kind == "stmt" and isinstance(st, ast.Assign) and any(isinstance(t, ast.Name) and t.id == "comments" for t in st.targets):
+                clr = True
+            decided: Any = UNKNOWN
+            if n.kind == "test" and n.cond is not None:
+                env = dict(env0)
+                if popped and not psh:
+                    env.pop("buf", None)  # what is behind the popped token is not known
+                    # and tokbuf[0] is no longer this token
+                    def sym2(e, _s=sym):
+                        t = norm(e)
+                        if t in (f"{buf}[0].type", f"{buf}[0].value", buf):
+                            return "unknown"
+                        return _s(e)
+                    decided = ev2(n.cond, env, sym2)
+                else:
+                    decided = ev2(n.cond, env, sym)
+                trail = trail + (n.lineno,)
+            for s_, lab in n.succ:
+                if lab == "exc":
+                    continue
+                if decided is not UNKNOWN and lab in ("T", "F") and bool(decided) != (lab == "T"):
+                    continue
+                stack.append((s_, popped, rec, clr, psh, trail))
+    return out
